@@ -141,6 +141,15 @@ def corrupt_cache(p, cls):
     n = int(param) if param and param.lstrip('-').isdigit() else 0
     if kind == 'truncate':
         out = raw[:max(0, min(len(raw) - 1, n))]
+    elif kind == 'bitflipkeep':
+        # silent bit rot: one bit of the gzip trailer (CRC32) flips; size and modification time stay what they were
+        st = os.stat(p)
+        i = len(raw) - 8 + (n % 4)
+        out = raw[:i] + bytes([raw[i] ^ (1 << (n % 8))]) + raw[i + 1:]
+        with open(p, 'r+b') as fh:
+            fh.write(out)
+        os.utime(p, ns=(st.st_atime_ns, st.st_mtime_ns))
+        return
     elif kind == 'bitflip':
         i = n % len(raw)
         out = raw[:i] + bytes([raw[i] ^ (1 << (n % 8))]) + raw[i + 1:]
